@@ -337,6 +337,10 @@ class Type4Tag(nfc.tag.Tag):
 
                 nlen = unpack(lfmt, nlen)[0]
                 log.debug("ndef data length is {0}".format(nlen))
+                if nlen > self._capacity or self._nlen_size + nlen > 0x10000:
+                    # longer than the file or beyond the 16 bit file offset
+                    log.debug("ndef data length exceeds the file size")
+                    return None
 
                 data = bytearray()
                 while len(data) < nlen:
